@@ -345,6 +345,33 @@ def run(tier, rep):
             rep.violation(f"ill-typed-accepted:{kind}", detail, replay={"source": text, "mutation": kind})
         else:
             rep.violation(f"ill-typed-not-rejected-by-typer:{r['verdict']}:{kind}", detail, replay={"source": text, "mutation": kind})
+    # ---- a type argument that does not satisfy the trait bound of the generic function it is passed to
+    head = ("trait Show { fn show(Self) -> string; }\nimpl Show for int32 { fn show(self: int32) -> string { \"i\" } }\n"
+            "struct Pt { x: int32 }\nenum Opt[T] { Non, Som(T) }\n")
+    gen = {"bound-used": "fn f[T: Show](x: T) -> string { Show::show(x) }\n", "bound-unused": "fn f[T: Show](x: T) -> string { \"k\" }\n",
+           "second-of-two-bounds": "trait Other { fn o(Self) -> int32; }\nimpl Other for bool { fn o(self: bool) -> int32 { 1 } }\nfn f[T: Other + Show](x: T) -> string { \"k\" }\n"}
+    args = {"bool": "true", "string": '"s"', "struct": "Pt { x: 1 }", "tuple": "(1, 2)", "generic-instance": "Opt::Som(1)", "closure": "|a: int32| a"}
+    breqs = []
+    for gname, gtext in gen.items():
+        for aname, atext in args.items():
+            if gname == "second-of-two-bounds" and aname != "bool":
+                continue
+            text = head + gtext + "fn main() -> unit {\n    let _ = string_println(f(" + atext + "));\n    ()\n}\n"
+            breqs.append({"id": f"{gname}:{aname}", "text": text, "dir": mroot})
+        breqs.append({"id": f"{gname}:control-int32", "text": head + gtext.replace("impl Other for bool { fn o(self: bool)", "impl Other for int32 { fn o(self: int32)") + "fn main() -> unit {\n    let _ = string_println(f(1));\n    ()\n}\n", "dir": mroot})
+    for q, r in zip(breqs, gv_parallel("compile", breqs, extra=["--limit-ms", "30000"])):
+        if q["id"].endswith("control-int32"):
+            if r["verdict"] != "ok":
+                raise ToolError(f"trait-bound control program rejected: {[d['msg'] for d in r.get('diags', [])][:2]}")
+            continue
+        mverd[r["verdict"]] += 1
+        if r["verdict"] == "typer":
+            continue
+        detail = {"mutation": "unsatisfied-trait-bound", "verdict": r["verdict"], "diagnostics": [d["msg"] for d in r.get("diags", [])][:4], "panic": r.get("msg"), "source": q["text"]}
+        if r["verdict"] == "ok":
+            rep.violation(f"ill-typed-accepted:unsatisfied-trait-bound:{q['id']}", detail, replay={"source": q["text"]})
+        else:
+            rep.violation(f"ill-typed-not-rejected-by-typer:{r['verdict']}:unsatisfied-trait-bound:{q['id']}", detail, replay={"source": q["text"]})
     if acc:
         aerr, _ = judge(acc[:50], "c03-accepted-mutants")
         rep.coverage["accepted_mutants_also_flagged_by_judgment"] = sum(1 for i, _ in acc[:50] if aerr.get(i))
